@@ -4,7 +4,6 @@ import (
 	"context"
 	"fmt"
 	"math/big"
-	"slices"
 	"time"
 
 	awskinesis "github.com/aws/aws-sdk-go-v2/service/kinesis"
@@ -98,16 +97,10 @@ func (s *SourceSplitter) Start(ckpt *snapshotpb.SourceCheckpoint) error {
 	if err != nil {
 		return fmt.Errorf("kinesis.SourceSplitter failed to discover shards: %w", err)
 	}
-	for _, available := range s.splitTracker.AvailableSplits() {
-		// The shards loaded from the checkpoint are tracked as unassigned so
-		// they are available too, don't assign them twice.
-		alreadyPending := slices.ContainsFunc(pendingShards, func(pending SourceSplitterShard) bool {
-			return pending.ShardID == available.ShardID
-		})
-		if !alreadyPending {
-			pendingShards = append(pendingShards, available)
-		}
-	}
+	// The shards loaded from the checkpoint are tracked as unassigned so they
+	// are available too, unless they wait for a parent shard that is still
+	// being read.
+	pendingShards = s.splitTracker.AvailableSplits()
 
 	// Do the initial split assignment
 	s.assignShards(ctx, pendingShards)
@@ -160,7 +153,9 @@ func (s *SourceSplitter) Close() error {
 
 // Checkpoint returns a snapshot of the splitter's state for checkpointing.
 func (s *SourceSplitter) Checkpoint() []byte {
-	splits := s.splitTracker.AssignedSplits()
+	// Shards that wait for their parents are part of the state too: their IDs
+	// can be lower than LastAssignedShardId so they aren't discovered again.
+	splits := s.splitTracker.KnownSplits()
 	pbShards := make([]*kinesispb.SourceSplitterShard, len(splits))
 	for i, shard := range splits {
 		pbShards[i] = shard.toProto()
